@@ -650,6 +650,11 @@ class TermEval:
             if node.id in env:
                 return self._to_py(env[node.id])
             raise NC
+        if isinstance(node, ast.Attribute) and isinstance(node.value, ast.Name) and isinstance(env.get(node.value.id), dict):
+            struct = env[node.value.id]
+            if node.attr in struct:
+                return self._to_py(struct[node.attr])
+            raise NC
         if isinstance(node, ast.Tuple):
             return tuple(self.const(e, env, fn, depth) for e in node.elts)
         if isinstance(node, ast.Set):
@@ -802,6 +807,23 @@ class TermEval:
         for st in body:
             if isinstance(st, ast.Expr) and isinstance(st.value, ast.Constant):
                 continue  # docstring
+            if isinstance(st, ast.Expr) and isinstance(st.value, ast.Call) and isinstance(st.value.func, ast.Attribute):
+                call = st.value
+                recv = call.func.value
+                if call.func.attr == "update" and isinstance(recv, ast.Name) and isinstance(env.get(recv.id), DictV) and len(call.args) == 1:
+                    other = self.ev(call.args[0], env, fn, depth)
+                    if not isinstance(other, DictV):
+                        raise ExtractionError("dict.update with a non-literal mapping")
+                    merged = list(env[recv.id].items)
+                    for k, v in other.items:
+                        merged = [(a, b) for a, b in merged if vkey(a) != vkey(k)] + [(k, v)]
+                    env[recv.id] = DictV(merged)
+                    continue
+                base = recv
+                while isinstance(base, (ast.Attribute, ast.Subscript, ast.Call)):
+                    base = base.value if not isinstance(base, ast.Call) else base.func
+                if isinstance(base, ast.Name) and base.id in {"_LOGGER", "logging", "warnings", "printer"}:
+                    continue  # logging / printer bookkeeping does not contribute to the term
             if isinstance(st, (ast.Import, ast.ImportFrom, ast.Pass)):
                 continue
             if isinstance(st, (ast.FunctionDef,)):
